@@ -47,6 +47,11 @@ def Active (s : Svc) (P : List String) : Prop :=
   s.profiles = [] ∨ "*" ∈ P ∨ ∃ x ∈ s.profiles, x ∈ P
 instance (s : Svc) (P : List String) : Decidable (Active s P) := by unfold Active; exact inferInstance
 
+/-- every enabled service is active under the recorded profile list (what a load leaves behind, and an
+invariant of every operation) -/
+def ProfilesOK (p : Proj) : Prop := ∀ kv ∈ p.services, Active kv.2 p.profiles
+instance (p : Proj) : Decidable (ProfilesOK p) := by unfold ProfilesOK; exact inferInstance
+
 /-! ## dependency closure -/
 
 /-- `y` is pulled in by `x` under the policy (both enabled) -/
@@ -142,8 +147,8 @@ def EnableSpec (p : Proj) (names : List String) (q : Proj) : Prop :=
   if names = [] then q = p else
   ProfilesSpec p (p.profiles ++ wantedProfiles p names) q ∧
   -- enabling a known service enables it and activates its profiles
-  ∀ n ∈ names, n ∈ known p → n ∈ keys q.services ∧
-    sat (find q n) fun s => ∀ x ∈ s.profiles, x ∈ q.profiles
+  (ProfilesOK p → ∀ n ∈ names, n ∈ known p → n ∈ keys q.services ∧
+    sat (find q n) fun s => Active s q.profiles ∧ (n ∉ keys p.services → ∀ x ∈ s.profiles, x ∈ q.profiles))
 instance (p : Proj) (names : List String) (q : Proj) : Decidable (EnableSpec p names q) := by
   unfold EnableSpec; exact inferInstance
 
